@@ -16,6 +16,7 @@ const (
 
 func init() {
 	register("C15", func(c *core.Ctx, tier string) {
+		errPolarity(c, "C15.9", "webtransport")
 		c15Panics(c)
 		c15IndexSafety(c)
 		wtPeekValidity(c, "C15.2b")
